@@ -51,6 +51,8 @@ def cases(thorough):
         yield {"kind": "basis_from_n_u", "n": list(c)}
     for cc in via_map_cases(thorough):
         yield cc
+    for cc in scale_cases(thorough):
+        yield cc
     # top / side
     lat = list(itertools.product([-1.0, 0.0, 1.0], repeat=3))
     sub = [(1.0, 0.0, 0.0), (0.0, 1.0, 0.0), (0.0, 0.0, 1.0), (1.0, 1.0, 0.0), (-1.0, 0.0, 1.0), (1.0, -1.0, 1.0), (0.0, 0.0, 0.0)]
@@ -72,6 +74,25 @@ def cases(thorough):
                                 third = [3.0, 0.5, 0.0] if win.endswith(("-m", "-km")) else [2.0, 1.0, 0.0]
                                 yield {"kind": view, "pos": [list(p1), list(p2), third], "vel": [list(v1), list(v2), [0.0, 1.0, -1.0]],
                                        "mass": [masses[0], masses[1], 1.0], "window": win}
+
+
+def scale_cases(thorough):
+    """'top' / 'side' on groups of very many cells (integer lattice positions and velocities: every sum is exact in any order)."""
+    for view in ("top", "side"):
+        for n in (65536, 65537, 100000, 150001) + ((200000, 131072) if thorough else ()):
+            for window in ("dx50", "none"):
+                yield {"kind": view, "generated": {"n": n}, "window": window}
+
+
+def generated_cells(n):
+    i = np.arange(n, dtype=np.int64)
+    pos = np.stack([i % 61 - 30, (i // 61) % 61 - 30, (i // 3721) % 61 - 30], axis=1).astype(float)
+    # the cells stored first turn about z, the following ones about x, the last few thousand about y
+    vel = np.where((i < 65536)[:, None], np.stack([-pos[:, 1], pos[:, 0], np.zeros(n)], axis=1),
+                   np.where((i < n - 3000)[:, None], np.stack([np.zeros(n), -pos[:, 2], pos[:, 1]], axis=1),
+                            np.stack([pos[:, 2], np.zeros(n), -pos[:, 0]], axis=1) * 4.0))
+    mass = 1.0 + (i % 3 == 0)
+    return pos, vel, mass
 
 
 def via_map_cases(thorough):
@@ -272,15 +293,20 @@ def run_case(acc, idx, c):
                     pr.append(("given-u-not-kept", {}))
                 tag = "VectorBasis(n,u):" + scale_class(c["n"])
             else:
-                pos = np.asarray(c["pos"], dtype=float)
-                vel = np.asarray(c["vel"], dtype=float)
-                mass = np.asarray(c["mass"], dtype=float)
+                if "generated" in c:
+                    pos, vel, mass = generated_cells(c["generated"]["n"])
+                else:
+                    pos = np.asarray(c["pos"], dtype=float)
+                    vel = np.asarray(c["vel"], dtype=float)
+                    mass = np.asarray(c["mass"], dtype=float)
                 data = osyris.Datagroup({
                     "position": V_(pos[:, 0].copy(), pos[:, 1].copy(), pos[:, 2].copy(), unit="cm"),
                     "velocity": V_(vel[:, 0].copy(), vel[:, 1].copy(), vel[:, 2].copy(), unit="cm/s"),
                     "mass": A_(mass.copy(), unit="g"),
                 })
-                if c["window"] == "dx8":
+                if c["window"] == "dx50":
+                    dx, origin, R, o = 50.0 * osyris.units("cm"), None, 25.0, np.zeros(3)
+                elif c["window"] == "dx8":
                     dx, origin, R, o = 8.0 * osyris.units("cm"), None, 4.0, np.zeros(3)
                 elif c["window"] == "dx4.4-origin":
                     dx, R, o = 4.4 * osyris.units("cm"), 2.2, np.array([1.0, 0.0, 0.0])
